@@ -74,6 +74,16 @@ def main():
         au = audit(mod.SPEC.theorems, f"LK.Props.{a.pid}")
     except LeanError as e:
         print(f"machinery error: {e}", file=sys.stderr); sys.exit(2)
+    if a.tier == "thorough" and not a.replay:
+        # independent re-check of the compiled proofs of this property (and, transitively, of the project modules they import)
+        mods = [f"LK.Props.{a.pid}"]
+        src = (LEAN_DIR / "LK" / "Props" / f"{a.pid}.lean").read_text()
+        mods += [l.split()[1] for l in src.splitlines() if l.startswith("import LK.")]
+        t0 = time.time()
+        r = subprocess.run(["lake", "env", "leanchecker"] + mods, cwd=LEAN_DIR, capture_output=True, text=True, timeout=3600)
+        if r.returncode != 0:
+            print("machinery error: leanchecker rejected " + " ".join(mods) + "\n" + (r.stdout + r.stderr)[-600:], file=sys.stderr); sys.exit(2)
+        au["leanchecker"] = {"modules": mods, "seconds": round(time.time() - t0, 1), "ok": True}
     sys.exit(run_check(mod.SPEC, a.tier, int(os.environ.get("VERIF_SEED", "0")), a.replay, au))
 
 if __name__ == "__main__":
